@@ -18,6 +18,9 @@ import (
 // Clock values are microsecond offsets from time.Unix(Base, 0).
 type vfCcfbScript struct {
 	Level string `json:"level"` // "rec": exported Recorder, "icpt": SenderInterceptor with SenderTicker/SenderNow
+	// Shared (icpt): every packet is read through the stream bound first, whatever SSRC its header carries (the history is
+	// kept per SSRC of the PACKETS)
+	Shared bool `json:"shared"`
 	Base  int64  `json:"base"`  // unix seconds of clock offset 0
 	Ntp16 int    `json:"ntp16"` // NTP seconds of the base modulo 2^16 (echoed into the trace for the timestamp check)
 	Max   int64  `json:"max"`   // icpt level: maximum report size of the interceptor (0: keep the default)
@@ -180,17 +183,25 @@ func vfRunSender(t *testing.T, sc *vfCcfbScript, out *vfWriter) { //nolint:cyclo
 	}
 	streams := map[uint32]*bound{}
 	started := false
+	first := uint32(0)
 	for _, st := range sc.Steps {
 		switch st.A {
 		case "add":
-			b := streams[st.S]
+			via := st.S
+			if sc.Shared && first != 0 { // one bound stream carries every SSRC of the script (media + RTX / FEC, simulcast)
+				via = first
+			}
+			if first == 0 {
+				first = st.S
+			}
+			b := streams[via]
 			if b == nil {
 				b = &bound{}
-				b.reader = ic.BindRemoteStream(&interceptor.StreamInfo{SSRC: st.S}, interceptor.RTPReaderFunc(
+				b.reader = ic.BindRemoteStream(&interceptor.StreamInfo{SSRC: via}, interceptor.RTPReaderFunc(
 					func(buf []byte, a interceptor.Attributes) (int, interceptor.Attributes, error) {
 						return copy(buf, b.next), a, nil
 					}))
-				streams[st.S] = b
+				streams[via] = b
 			}
 			pkt := rtp.Packet{Header: rtp.Header{Version: 2, SSRC: st.S, SequenceNumber: st.N}, Payload: []byte{1, 2, 3}}
 			raw, err := pkt.Marshal()
